@@ -217,6 +217,11 @@ func dumpSet(path string, m map[uint64]struct{}) {
 }
 
 func (c *Ctx) Finish() {
+	// Finish is deferred by the harness: a panic that unwinds through it is an infrastructure error, recorded and re-raised
+	if r := recover(); r != nil {
+		c.Infra("harness panicked: %v", r)
+		defer panic(r)
+	}
 	if n := int64(len(c.states)); n > 0 {
 		c.R.States = n
 	}
